@@ -559,6 +559,31 @@ func rule085(r *core.Run, ctx *oblig.Ctx) {
 			}
 		}
 		r.Check(has(codes, "MissingContentLength") && okNeg, "R08.5", key(fname(r, fn), "Content-Length present and non-negative"), r.P.Pos(fn.Pos()), "missing → MissingContentLength; size >= 0 before storage", "a missing Content-Length is not refused, or a negative size can reach storage")
+		// … and exactly non-negative: an empty body is an object like any other — every comparison of a
+		// parsed length with a constant draws the line between -1 and 0
+		nCmp := 0
+		core.Instrs(fn, func(in ssa.Instruction) {
+			b, ok := in.(*ssa.BinOp)
+			if !ok {
+				return
+			}
+			k, isK := core.ConstInt(b.Y)
+			ex, isEx := b.X.(*ssa.Extract)
+			if !isK || !isEx || ex.Index != 0 {
+				return
+			}
+			pc, isCall := ex.Tuple.(*ssa.Call)
+			if !isCall || r.P.CalleeName(pc) != "strconv.ParseInt" {
+				return
+			}
+			nCmp++
+			okForm := (b.Op == token.LSS && k == 0) || (b.Op == token.GEQ && k == 0) || (b.Op == token.LEQ && k == -1) || (b.Op == token.GTR && k == -1)
+			r.Check(okForm, "R08.5", key(fname(r, fn), "a zero-length body is accepted", sprintf("#%d", nCmp)), pos(r, b), "parsed length refused only when negative",
+				sprintf("a parsed length is compared with `%s %d`: a PUT of an empty object (length 0) is refused — or a negative length accepted — and an overwrite with an empty body leaves the old content in place", b.Op, k))
+		})
+		if nCmp < 2 {
+			r.Unresolved("R08.5: %d sign tests of parsed lengths found in createObject (expected 2)", nCmp)
+		}
 	}
 }
 
